@@ -28,6 +28,10 @@ val model_run : jv -> jv * st
 
 val strs_eqb : str list -> str list -> bool
 
+val insert_sorted_set : str -> str list -> str list
+
+val sort_strs : str list -> str list
+
 type case_result = { cr_relevant : bool; cr_roundtrip : bool;
                      cr_same_status : bool; cr_same_out : bool;
                      cr_same_diag : bool; cr_model_out : jv;
